@@ -1,25 +1,121 @@
 (** Property C17 — the sampler honours target weight, reactivities, terminals and seed.
-    Only statements, each closed by [exact]; proofs in Sample/SampleSpec.v and Sample/SampleProofs.v. *)
+    Only statements, each closed by [exact]; proofs in Sample/SampleSpec.v (generated functions),
+    Sample/SampleProofs.v (loop, selection rule, terminals), Sample/SampleHistory.v (histories).
+    Every theorem holds for EVERY sequence of random picks the model accepts, hence for every seed
+    and generator.  NOTE: the code does not count the mass of the starting fragment; the property
+    speaks of "the fragments added during growth", which is what [stop_rule] states.
+    Not proved, decided on the implementation's output by the check only: element-derived masses
+    (float sums against the generated PTE table and the hydrogen rule). *)
 From Coq Require Import String.
 From Coq Require Import List Ascii ZArith Bool.
 From CGV Require Import Base.PyBase Base.PyVal Base.PyGen Sample.GenSupport Gen.SamplerGen Sample.SampleImpl
-     Sample.SampleDefs Sample.SampleSpec Sample.SampleProofs.
+     Sample.SampleDefs Sample.SampleSpec Sample.SampleProofs Sample.SampleHistory Sample.SampleExample.
 Import ListNotations.
 Open Scope Z_scope.
 
-(** the GENERATED order-suffix defaults *)
+(** the GENERATED order-suffix defaults of all tables *)
 Theorem C17_defaults_list : forall l, Forall (fun s => s <> []) l -> set_bond_order_defaults_list l = Ok (map dflt l).
 Proof. exact set_defaults_list_spec. Qed.
 Theorem C17_defaults_dict : forall (V : Type) (d : list (pystr * V)), Forall (fun kv => fst kv <> []) d ->
   set_bond_order_defaults_dict d = Ok (dflt_dict d).
 Proof. exact @set_defaults_dict_spec. Qed.
+Theorem C17_defaults_key : forall s, s <> [] -> patch_key s = Ok (dflt s).
+Proof. exact patch_key_spec. Qed.
 
-(** random.choices' selection rule (third-party; modelled over integer weights): an entry of
-    weight 0 is never returned for a draw in [0, total) *)
+(** random.choices' selection rule (THIRD-PARTY code, modelled over integer weights: cumulative
+    sums + bisect_right as its specification): an entry of weight 0 is never returned for a draw
+    in [0, total), and the index is in range *)
 Theorem C17_zero_weight_never_selected : forall ws x, Forall (fun w => 0 <= w) ws -> 0 <= x < zsum ws ->
   nth_error ws (choices_index ws x) <> Some 0.
 Proof. exact zero_weight_never_selected. Qed.
+Theorem C17_choices_index_in_range : forall ws x, Forall (fun w => 0 <= w) ws -> 0 <= x < zsum ws ->
+  (choices_index ws x < length ws)%nat.
+Proof. exact choices_index_in_range. Qed.
+
+Section C17.
+  Variable M : Type.
+  Variables (c0 : Z -> M) (madd : M -> M -> M) (mltb : M -> M -> bool) (misz : M -> bool).
+  Variable R : Type.
+  Variable pick : R -> nat -> option (list M) -> res (nat * R).
+  Variable cfg : config M.
+
+  (** stop_rule, generic carrier, from the GENERATED loop guard only: at exit the guard fails for
+      the left fold of the masses of the fragments added in the loop, and it held before the last
+      addition *)
+  Theorem C17_stop_rule : forall target fuel rng m cw log m' cw' log' rng',
+    grow M c0 madd mltb misz R pick cfg target fuel rng m cw log = Ok (m', cw', log', rng') ->
+    exists new ms, log' = log ++ new /\ masses_of M cfg new = Some ms /\ cw' = fold_left madd ms cw /\
+      loop_guard mltb cw' target = false /\
+      (forall front last, ms = front ++ [last] -> loop_guard mltb (fold_left madd front cw) target = true).
+  Proof. exact (stop_rule M c0 madd mltb misz R pick cfg). Qed.
+
+  (** zero reactivities: the site has non-zero polymer reactivity (missing keys count as 0) when a
+      table is given; the partner has non-zero conditional reactivity when a table is given *)
+  Theorem C17_zero_reactivity_never_chosen : forall rng ob s rng',
+    step_select M c0 misz R pick cfg rng ob = Ok (s, rng') ->
+    (match c_poly cfg with kv :: p => misz (dict_get_default (kv :: p) (s_bonding s) (c0 0)) = false | [] => True end) /\
+    (match dict_get (c_fragreact cfg) (s_bonding s) with
+     | Some (kv :: p) => misz (dict_get_default (kv :: p) (s_compl s) (c0 0)) = false
+     | _ => True end).
+  Proof. exact (select_nonzero M c0 misz R pick cfg). Qed.
+
+  (** terminals *)
+  Theorem C17_terminal_closes_atom : forall m s m' tgt, step_apply M cfg m s = Ok (m', tgt) ->
+    str_in (s_compl s) (c_term cfg) = true ->
+    exists n, find_node (s_source s) (m_nodes m') = Some n /\ n_bonding n = None.
+  Proof. exact (terminal_closes_atom M cfg). Qed.
+  Theorem C17_closed_stays_closed : forall m s m' tgt k n, step_apply M cfg m s = Ok (m', tgt) ->
+    find_node k (m_nodes m) = Some n -> n_bonding n = None ->
+    exists n', find_node k (m_nodes m') = Some n' /\ n_bonding n' = None.
+  Proof. exact (closed_stays_closed M cfg). Qed.
+  Theorem C17_terminal_withdrawn : forall m s m' tgt, step_apply M cfg m s = Ok (m', tgt) ->
+    str_in (s_compl s) (c_term cfg) = false ->
+    exists n ds, find_node (s_source s) (m_nodes m') = Some n /\ n_bonding n = Some ds /\
+                 Forall (fun d => str_in d (c_term cfg) = false) ds.
+  Proof. exact (terminal_withdrawn M cfg). Qed.
+End C17.
+
+(** the stop rule at Z in the words of the property *)
+Theorem C17_stop_rule_Z : forall (R : Type) pick cfg target fuel rng m log m' cw' log' rng',
+  grow Z (fun z => z) Z.add Z.ltb (Z.eqb 0) R pick cfg target fuel rng m 0 log = Ok (m', cw', log', rng') ->
+  exists new ms, log' = log ++ new /\ masses_of Z cfg new = Some ms /\
+    target <= zsum ms /\ (forall front last, ms = front ++ [last] -> zsum front < target).
+Proof. exact stop_rule_Z. Qed.
+
+(** seed_determines, on the history machine (abstract generator: any state type, any seeding
+    function, any pick function): after ANY history, construct(seed); sample(w) returns what a
+    fresh interpreter returns *)
+Theorem C17_seed_determines : forall (M : Type) c0 madd mltb misz (R : Type) rseed pick st id a seed target start fuel,
+  match init M (a_frags M a) (a_poly M a) (a_fragreact M a) (a_term M a) (a_masses M a) with
+  | Ok _ => snd (hrun M c0 madd mltb misz R rseed pick st [Construct M id a seed; Sample M id target start fuel])
+            = fresh_run M c0 madd mltb misz R rseed pick a seed target start fuel
+  | Err _ => True
+  end.
+Proof. exact seed_determines. Qed.
+
+(** non-vacuity: the example run (six steps; masses 28/15, target 120): 129 >= 120 and 114 < 120;
+    the zero conditional weight ('$A' -> '$A') is never chosen, the terminal '$B' closes its atom *)
+Example C17_nonvacuous :
+  exists cfg nm i0 m cw log r, ex_cfg = Ok cfg /\ ex_run = Ok (nm, i0, m, cw, log, r) /\
+    cw = 129 /\ masses_of Z cfg log = Some [28; 28; 15; 15; 28; 15] /\
+    existsb (fun s => str_in (r_compl s) (c_term cfg)) log = true /\
+    (exists n, find_node 1 (m_nodes m) = Some n /\ n_bonding n = None).
+Proof.
+  do 7 eexists. split; [vm_compute; reflexivity|]. split; [vm_compute; reflexivity|].
+  split; [reflexivity|]. split; [vm_compute; reflexivity|]. split; [vm_compute; reflexivity|].
+  eexists. split; vm_compute; reflexivity.
+Qed.
 
 Print Assumptions C17_defaults_list.
 Print Assumptions C17_defaults_dict.
+Print Assumptions C17_defaults_key.
 Print Assumptions C17_zero_weight_never_selected.
+Print Assumptions C17_choices_index_in_range.
+Print Assumptions C17_stop_rule.
+Print Assumptions C17_stop_rule_Z.
+Print Assumptions C17_zero_reactivity_never_chosen.
+Print Assumptions C17_terminal_closes_atom.
+Print Assumptions C17_closed_stays_closed.
+Print Assumptions C17_terminal_withdrawn.
+Print Assumptions C17_seed_determines.
+Print Assumptions C17_nonvacuous.
